@@ -39,19 +39,38 @@ Theorem C07_task_conservation : forall atomic k s, reachable atomic k s ->
             (quiescent_tasks s -> n_started a s = n_created a s).
 Proof. exact task_conservation. Qed.
 
-(* ---- values: an await never sees a value of another call -------------------------------
-   Every filled cell of the value of `await fut` and every (slot, value) pair returned by
-   next(fut) is the Return value of the child created for that slot of that future (map:
-   argument order); the value the server holds for a client is the Return value of the root
-   body submitted under that mailbox id, and mailbox ids identify roots. *)
-Theorem C07_slot_values_partial : forall atomic k s, reachable atomic k s ->
-  (forall w a sc mo f vs, In w (s_workers s) -> In (a, sc, mo, OAwait f vs) (w_log w) ->
-     forall i v, nth_error vs i = Some (Some v) -> slot_spec sc f i v) /\
+(* ---- values: every future resolves with its own result --------------------------------
+   (1) The value a body receives from `await fut` (taken from mailbox m) is, cell by cell and
+       in argument order, the Return value of the children created for that future: one cell
+       for submit, one per argument for map; no cell is missing.
+   (2) Every (slot, value) returned by next(fut) is the Return value of that slot's child.
+   (3) The value the server holds for a client mailbox is the Return value of the root body
+       submitted under that mailbox id, and mailbox ids identify roots.
+   Both variants, all schedules, all scripts. *)
+Theorem C07_slot_values : forall atomic k s, reachable atomic k s ->
+  (forall w a sc m f vs, In w (s_workers s) -> In (a, sc, Some m, OAwait f vs) (w_log w) ->
+     exists sp, nth_error (specs_of sc) f = Some sp /\ vs = map (fun c => Some (ret_of c)) (kids sp)) /\
   (forall w a sc mo f bt, In w (s_workers s) -> In (a, sc, mo, ONext f bt) (w_log w) ->
      forall i v, In (i, v) bt -> slot_spec sc f i v) /\
   (forall a v, In (a, v) (s_client s) -> In (a_box a, v) (s_roots s)) /\
   (forall b v v', In (b, v) (s_roots s) -> In (b, v') (s_roots s) -> v = v').
-Proof. exact slot_values. Qed.
+Proof. exact slot_values_full. Qed.
+
+(* ---- next(): the batches handed out from one mailbox never repeat a slot; once as many
+   results as slots have been handed out, every slot has been seen exactly once ----------- *)
+Theorem C07_next_batches : forall atomic k s, reachable atomic k s ->
+  forall w m, In w (s_workers s) -> NoDup (map fst (batches m (w_log w))).
+Proof. exact next_disjoint. Qed.
+
+Theorem C07_next_batches_complete : forall (bt : list (nat * val)) n,
+  NoDup (map fst bt) -> (forall i v, In (i, v) bt -> i < n) -> n <= length bt ->
+  forall i, i < n -> In i (map fst bt).
+Proof. exact next_covers. Qed.
+
+(* ---- exactly once: no return address ever receives two deposits (in any mailbox, on any
+   worker), whatever the delivery order -------------------------------------------------- *)
+Theorem C07_result_deposited_once : forall atomic k s, reachable atomic k s -> forall a, n_dep a s <= 1.
+Proof. exact deposits_once. Qed.
 
 (* ---- non-vacuity: a run in which a map of two and a submit are awaited, on 2 workers ---- *)
 Definition ex_root : script := [Map [[Return 5]; [Return 6]]; Submit [Return 7]; Await 0; Await 1; Return 1].
